@@ -184,6 +184,52 @@ theorem algOp_quiet (dbg : K → String) (kind : AlgKind) {a b : Raw K Unit} {la
 end alg
 
 
+/-! ### serde: serialization reads, deserialization is a sequence of `insert`s on a local -/
+
+theorem iterAllR_ok {r : Raw K V} {l : List (K × V)} (hr : Rep r l) (s : St K V Q) :
+    ∀ n i, i + n = l.length → iterAllR (Q := Q) r n i s = .ok (l.drop i) s
+  | 0, i, h => by
+    have : l.drop i = [] := List.drop_eq_nil_of_le (by omega)
+    simp [iterAllR, this]
+  | n + 1, i, h => by
+    have hi : i < l.length := by omega
+    unfold iterAllR
+    have h1 : itemRefR r i s = .ok l[i] s := by
+      unfold itemRefR; simp [hr.cap_lt hi, hr.slot hi]
+    simp only [bind_apply, h1, iterAllR_ok hr s n (i + 1) (by omega), pure_apply]
+    rw [List.drop_eq_getElem_cons hi]
+
+/-- `serialize`: announces `len()` and emits exactly the entries `iter()` yields, in order; the
+    container and the world are untouched. -/
+theorem serializeR_ok {r : Raw K V} {l : List (K × V)} (hr : Rep r l) (s : St K V Q) :
+    serializeR (Q := Q) r s =
+      .ok (.start (some l.length) :: l.map (fun p => Tok.entry p.1 p.2) ++ [.fin]) s := by
+  unfold serializeR
+  have hle : r.len ≤ r.cap := hr.1 ▸ hr.2.1
+  simp only [hle, if_true, bind_apply]
+  rw [hr.1, iterAllR_ok hr s l.length 0 (by omega)]
+  simp
+
+theorem opInv_decodeK (k : K) : OpInv E (decodeK E k) := fun _ hs => ⟨hs, rfl⟩
+
+theorem opInv_decodeV (v : V) : OpInv E (decodeV E v) := by
+  intro s hs
+  unfold Sat decodeV
+  cases E.vGlue <;> exact ⟨hs, rfl⟩
+
+theorem opInv_visitLoop : ∀ toks : List (Tok K V), OpInv E (visitLoop E toks)
+  | [] => by unfold visitLoop; exact OpInv.pure ()
+  | .start _ :: _ => by unfold visitLoop; exact OpInv.pure ()
+  | .fin :: _ => by unfold visitLoop; exact OpInv.pure ()
+  | .entry k v :: rest => by
+    unfold visitLoop
+    refine OpInv.bind (opInv_decodeK E k) (fun k' => ?_)
+    refine OpInv.bind (opInv_decodeV E v) (fun v' => ?_)
+    refine OpInv.bind (opInv_insert E k' v') (fun o => ?_)
+    cases o with
+    | none => exact opInv_visitLoop rest
+    | some old => exact OpInv.bind (OpInv.of_cb (dropV_cb E old)) (fun _ => opInv_visitLoop rest)
+
 /-! ### every operation of a map register -/
 
 /-- the operations covered by the invariant theorem: the whole safe API.  Excluded are the two
@@ -244,6 +290,7 @@ theorem stepMapOp_inv_basic (R : Render K V) (other : Nat → Raw K V) (hother :
   | with_capacity c =>
     refine OpInv.bind (opInv_capacity E) (fun cap => ?_)
     exact OpInv.bind (opInv_assertP E _ _) (fun _ => OpInv.pure _)
+  | serde dst => exact OpInv.pure _
 
 
 /-! ### every operation of a set register -/
@@ -332,6 +379,7 @@ theorem stepSetOp_inv (R : Render K Unit) (other : Nat → Raw K Unit) (hother :
   | fmt kind => exact OpInv.bind (opInv_fmtSet F R kind) (fun _ => OpInv.pure _)
   | drop => exact OpInv.bind (opInv_drop F) (fun _ => OpInv.pure _)
   | forget => exact OpInv.bind (opInv_forget F) (fun _ => OpInv.pure _)
+  | serde dst => exact OpInv.pure _
 
 end setops
 
